@@ -226,15 +226,24 @@ Proof.
   intros vf vl Hvf Hvl Hag n Hn.
   destruct (all_vals_complete (elements (free_nodes (c_g Cf))) vf) as (w & Hw & Hwv).
   rewrite forallb_forall in Hall. specialize (Hall w). rewrite <- elem_of_list_In in Hall. specialize (Hall Hw).
-  apply andb_true_iff in Hall as [Hall Heq]. apply andb_true_iff in Hall as [Hcf Hcl].
-  assert (Hf : agrees (dom (c_g Cf)) vf (evalc (c_g Cf) w)).
-  { apply evalc_unique; [by apply closedb_spec|by apply acyclicb_sound|done|done|].
-    intros m Hm. symmetry. apply Hwv. by apply elem_of_elements. }
-  assert (Hl : agrees (dom (c_g Cl)) vl (evalc (c_g Cl) w)).
-  { apply evalc_unique; [by apply closedb_spec|by apply acyclicb_sound|done|done|].
-    intros m Hm. rewrite <- Hfree in Hm. rewrite <- (Hag m Hm). symmetry. apply Hwv. by apply elem_of_elements. }
+  repeat (apply andb_true_iff in Hall as [Hall ?]).
+  match goal with H : eq_on (elements (endpoints _)) _ _ = true |- _ => rename H into Heq end.
+  match goal with H : eq_on _ (fev (c_g Cl) _ _) w = true |- _ => rename H into Hlw end.
+  match goal with H : eq_on _ (fev (c_g Cf) _ _) w = true |- _ => rename H into Hfw end.
+  match goal with H : consistentb (c_g Cl) _ = true |- _ => rename H into Hcl end.
+  rename Hall into Hcf.
+  rewrite eq_on_spec in Heq, Hlw, Hfw. apply consistentb_spec in Hcf, Hcl.
+  assert (Hf : agrees (dom (c_g Cf)) vf (fev (c_g Cf) (node_order (c_g Cf)) w)).
+  { destruct (acyclicb_sound (c_g Cf)) as [rank Hr]; [done|].
+    apply (consistent_unique (c_g Cf) rank Hr); [by apply closedb_spec|done|done|].
+    intros m Hm. rewrite Hfw by by apply elem_of_elements. symmetry. apply Hwv. by apply elem_of_elements. }
+  assert (Hl : agrees (dom (c_g Cl)) vl (fev (c_g Cl) (node_order (c_g Cl)) w)).
+  { destruct (acyclicb_sound (c_g Cl)) as [rank Hr]; [done|].
+    apply (consistent_unique (c_g Cl) rank Hr); [by apply closedb_spec|done|done|].
+    intros m Hm. rewrite <- Hfree in Hm. rewrite Hlw by by apply elem_of_elements.
+    rewrite <- (Hag m Hm). symmetry. apply Hwv. by apply elem_of_elements. }
   rewrite (Hf n) by by apply endpoints_dom. rewrite (Hl n) by (apply endpoints_dom; by rewrite <- Hend).
-  rewrite eq_on_spec in Heq. apply Heq. by apply elem_of_elements.
+  apply Heq. by apply elem_of_elements.
 Qed.
 
 (* ---- both readers register the same blackbox instances under the same module name (no guard on the AST) *)
